@@ -213,7 +213,7 @@ Proof.
   assert (Hnew : In ev (h ++ [ev])) by (apply in_snoc; auto).
   destruct Ht as [o x Hx Hns | pl0 cr0 n0 sc0 t0 Hrt0 Hn0 | cl uri scopes nonce chal ax | n sub stamp q Hq | n q Hq Hd
                  | pl f cr cd uri ver q c Hcr Hfc Hp Hu Hch Hpub | pl cr n scopes t c sc Hrt Hfc Hr Hfl Hp Hn
-                 | cl | nrev].
+                 | cl | cl | nrev].
   - (* nothing happened *)
     apply inv_same; [constructor; assumption | exact Hx].
   - (* invalid_scope: nothing happened *)
@@ -379,6 +379,19 @@ Proof.
       destruct (Idead e n1 Hin Ho Hdn Hle) as [A B]. split; [lia|].
       rewrite Hfo; [exact B | exact A | congruence].
   - (* the refresh grant of a client is withdrawn: storage objects untouched *)
+    constructor; unfold req_ok, codes_ok, codes_fun, used_ok, rts_ok, issued_ok, rotated_ok, dead_ok, find_req, find_rt;
+      cbn [reqs codes rtoks next ncode].
+    + intros q Hin. destruct (Ireq q Hin) as [A [[e [B1 B2]] C]]. split; [exact A|]. split; [old|].
+      intro Hd. destruct (C Hd) as [e' [C1 C2]]. old.
+    + intros c n Hin. destruct (Icodes c n Hin) as [A [B [e [C1 C2]]]]. split; [exact A | split; [exact B | old]].
+    + exact Ifun.
+    + intros e pl0 f0 cr c uri ver Hin Ho Hk. apply in_snoc in Hin as [Hin | ->]; [eauto | discriminate].
+    + intros t Hin. destruct (Irts t Hin) as [A [e [t0 [B1 B2]]]]. split; [exact A | oldrt].
+    + intros e t0 n Hin Ho Hk. apply in_snoc in Hin as [Hin | ->]; [eauto | discriminate].
+    + intros e pl0 cr n sc Hin Ho Hk Hkp. apply in_snoc in Hin as [Hin | ->]; [eauto | discriminate].
+    + intros e n1 Hin Ho Hdn Hle. apply in_snoc in Hin as [Hin | ->]; [|discriminate].
+      destruct (Idead e n1 Hin Ho Hdn Hle) as [A B]. split; [lia | exact B].
+  - (* every grant type of a client is withdrawn: storage objects untouched *)
     constructor; unfold req_ok, codes_ok, codes_fun, used_ok, rts_ok, issued_ok, rotated_ok, dead_ok, find_req, find_rt;
       cbn [reqs codes rtoks next ncode].
     + intros q Hin. destruct (Ireq q Hin) as [A [[e [B1 B2]] C]]. split; [exact A|]. split; [old|].
